@@ -34,7 +34,8 @@ ASSUMPTIONS = [
 CASE_TIMEOUT = 1800
 CHUNK = 1
 K = 30.0
-TOL_WIDTH = 2e-2     # Nelder-Mead default xatol/fatol: observed <= 3e-3 relative
+TOL_WIDTH = 5e-2     # widths lag the pressure iteration (stops at pressRelErrTol=0.1):
+                     # observed <= 2.3e-2 relative over 8 seeds; seeded changes move them >= 13 %
 TOL_OFFSET = 2e-2    # absolute (offsets are O(1)); observed <= 2e-3
 FLOORS = {
     "quick": {"distinct_nontrivial": 4, "mon": {"pairs_compared": 8, "solve_pairs": 3},
@@ -58,7 +59,12 @@ def generate(tier, seed):
     for i in range(n):
         r = rng.random()
         fam = "poly1" if r < 0.45 else ("poly2" if r < 0.9 else "bag1")
-        spec = getattr(P, "random_" + fam)(rng, s=1.0)
+        gen = "random_poly2_thick" if fam == "poly2" and rng.random() < 0.5 else "random_" + fam
+        spec = getattr(P, gen)(rng, s=1.0)
+        if fam == "poly2":
+            # which field comes first decides the sign of the relative offset
+            spec["perm"] = [int(x) for x in rng.permutation(2)]
+            spec["signs"] = [float(x) for x in rng.choice([-1.0, 1.0], size=2)]
         if tier == "quick":
             # both extremes every time: absolute numbers hidden in the code bite in one
             # direction only (small units: lengths > 1, gradients < 1; large units: T_n >> 1)
